@@ -40,6 +40,11 @@ def matchings(max_n):
     return _MATCHINGS[max_n]
 
 
+def preload(tier):
+    matchings(PLAN[tier]["max_n"])
+    solve_engine.common()
+
+
 def total_runs(tier):
     plan = PLAN[tier]
     if plan["seeded"] is None:
